@@ -49,7 +49,16 @@ def parse_amp_text(text, py):
         L = int(args[-2])
         prog = args[-4][:-2] if args[-4].endswith("_M") else args[-4]
         extra = args[:-4]
-        lss.append([kind, name, prog, L, masses, extra])
+        # what follows FF.BL2 up to the closing parenthesis of the call: the radius and, for a spline, its (min, max, bins)
+        depth, k = 1, m.end()
+        while k < len(text) and depth > 0:
+            depth += {"(": 1, ")": -1}.get(text[k], 0)
+            k += 1
+        tail = text[m.end():k - 1]
+        nums = re.findall(r"(?<![\w.])[-+]?\d+(?:\.\d*)?(?:[eE][-+]?\d+)?(?![\w.])", tail)
+        radius = float(nums[0]) if nums else None
+        triple = [float(x) for x in nums[1:4]] if len(nums) >= 4 else None
+        lss.append([kind, name, prog, L, masses, extra, radius, triple])
     n = (N_RE_PY if py else N_RE_CPP).search(text)
     return sfs, lss, int(n.group(1)) if n else None
 
@@ -132,8 +141,8 @@ def run(ctx):
     A.install_cache()
     n_docs = 40 if tier == "quick" else 500
 
-    for i in range(n_docs):
-        doc, ev = A.gen_emit_doc(rng, unsupported=True)
+    emit_docs = [A.gen_emit_doc(rng, unsupported=True) for _ in range(n_docs)] + A.other_family_docs()
+    for doc, ev in emit_docs:
         text = A.render_amp(doc)
         for cls, py in ((GooFitChain, False), (GooFitPyChain, True)):
             case = {"kind": "emit", "text": text, "language": "python" if py else "c++"}
@@ -192,6 +201,10 @@ def run(ctx):
                     elif mls != ils:
                         res.violation("lineshape block differs from the model (kind, resonance, L, invariant-mass indices from the same permutation)", sub,
                                       impl=ils[:6], model=mls[:6], clause="model tie: lineshapes")
+                    elif [None if x[0][0] == "RBW" else int(x[5]) / 10 for x in ans[1][1]] != [l[6] for l in lss]:
+                        res.violation("the radius written with a lineshape differs from the model (5.0 for a resonance with charm content, else 1.5)", sub,
+                                      impl=[l[6] for l in lss][:6], model=[None if x[0][0] == "RBW" else int(x[5]) / 10 for x in ans[1][1]][:6],
+                                      clause="model tie: lineshapes")
                     elif int(ans[1][2]) != n:
                         res.violation("declared count differs from the model", sub, impl=n, model=ans[1][2], clause="model tie: count")
 
